@@ -13,6 +13,13 @@
 //     Server.ServeConn) the count is taken once more after the compressor
 //     goroutine has exited (found through a pprof goroutine label), because the
 //     discard path and that goroutine may both close the original stream;
+//   - fixed-size framing monitor: for every write with a declared size (also when the stream yields more or
+//     less than declared, through Read, WriteTo in pieces, a pre-filled bufio.Reader, ...) the bytes after the
+//     head never exceed Content-Length, are a prefix of the stream's output, and the next message (second
+//     pipelined response of a real Server, second request of a real HostClient) starts right after them;
+//   - second cycle: after the release operation the same (or re-acquired) Request/Response/RequestCtx is reused
+//     with SetBodyString("second body") / ctx.Error: the peer must get that body, the old stream must neither
+//     be closed nor read again; streams whose Close returns an error are included throughout;
 //   - fault enumeration: every configuration is executed without a fault and then
 //     again with the sink failing after n bytes (n = 0, inside the head, at the
 //     head/body boundary, inside the body, last byte; PRNG positions).
@@ -28,15 +35,18 @@ import (
 	"fmt"
 	"io"
 	"math/rand"
+	"net"
 	"net/http"
 	"runtime"
 	"runtime/pprof"
 	"strings"
+	"sync"
 	"sync/atomic"
 	"testing"
 	"time"
 
 	"github.com/valyala/fasthttp"
+	"github.com/valyala/fasthttp/fasthttputil"
 
 	"verif/internal/mon"
 )
@@ -52,10 +62,12 @@ const (
 	kBWTOff
 	kStreamWriter
 	kCloserWithError
+	kBufioReader   // *bufio.Reader already holding buffered bytes: WriteTo = Write(buffered) + ReadFrom/WriteTo(rest)
+	kStringsReader // io.WriterTo handing everything over in one Write
 	nKinds
 )
 
-var kindNames = []string{"plain", "closer", "limited", "bytes.Reader", "bytes.Buffer", "writerTo", "bodyWriterTo-on", "bodyWriterTo-off", "streamWriter", "closer+CloseWithError"}
+var kindNames = []string{"plain", "closer", "limited", "bytes.Reader", "bytes.Buffer", "writerTo", "bodyWriterTo-on", "bodyWriterTo-off", "streamWriter", "closer+CloseWithError", "bufio.Reader", "strings.Reader"}
 
 const (
 	wNone = iota
@@ -63,10 +75,11 @@ const (
 	wGzip
 	wDeflate
 	wServer
+	wClient   // HostClient.Do over an InmemoryListener to a real Server, two requests on one keep-alive connection
 	wCompress // CompressHandlerBrotliLevel around a handler on a RequestCtx: the response holds a compressed stream that was not written yet
 )
 
-var writeNames = []string{"nowrite", "Write", "WriteGzip", "WriteDeflate", "Server.ServeConn", "CompressHandler"}
+var writeNames = []string{"nowrite", "Write", "WriteGzip", "WriteDeflate", "Server.ServeConn", "HostClient.Do", "CompressHandler"}
 
 const (
 	relNone = iota
@@ -104,8 +117,13 @@ type config struct {
 	ImmFlush bool   `json:"immediate_header_flush"`
 	SWFlush  int    `json:"sw_flush_every"`
 	Method   string `json:"method"`
-	Enc      string `json:"accept_encoding"`      // CompressHandler / Server: gzip, deflate, br, zstd ("" for Server: no compression)
-	CHWrite  bool   `json:"write_after_compress"` // CompressHandler: call Response.Write afterwards
+	Enc      string `json:"accept_encoding"`        // CompressHandler / Server: gzip, deflate, br, zstd ("" for Server: no compression)
+	CHWrite  bool   `json:"write_after_compress"`   // CompressHandler: call Response.Write afterwards
+	CloseErr bool   `json:"close_returns_error"`    // the stream's Close reports an error
+	SrvError bool   `json:"ctx_error_after_stream"` // Server: the handler calls ctx.Error("second body") after SetBodyStream
+	BufioSz  int    `json:"bufio_reader_size"`
+	BufioPk  int    `json:"bufio_reader_prefill"`
+	BufioWT  bool   `json:"bufio_reader_inner_writerto"`
 
 	data []byte // genData(DataSeed, DataLen), shared read-only by all executions of the configuration
 }
@@ -125,15 +143,19 @@ func genData(seed int64, n int) []byte {
 func genConfig(rnd *rand.Rand) config {
 	c := config{PanicAt: -1, ErrAt: -1, ZeroAt: -1}
 	c.IsReq = rnd.Intn(2) == 0
-	c.Kind = rnd.Intn(nKinds)
+	// io.Closer kinds (the ones the close-exactly-once rule is about) get double weight
+	c.Kind = []int{kPlain, kCloser, kCloser, kLimited, kBytesReader, kBytesBuffer, kWriterTo, kWriterTo, kBWTOn, kBWTOn, kBWTOff, kBWTOff,
+		kStreamWriter, kCloserWithError, kCloserWithError, kBufioReader, kStringsReader}[rnd.Intn(17)]
 	c.KindName = kindNames[c.Kind]
 	switch k := rnd.Intn(10); {
 	case k == 0:
 		c.DataLen = 0
 	case k < 4:
 		c.DataLen = 1 + rnd.Intn(100)
-	case k < 8:
+	case k < 7:
 		c.DataLen = 100 + rnd.Intn(5000)
+	case k < 8:
+		c.DataLen = []int{4096, 8192, 12288}[rnd.Intn(3)] - 3 + rnd.Intn(60) // around multiples of the 4096-byte copy buffer
 	default:
 		c.DataLen = 4000 + rnd.Intn(20000) // around and beyond the 4096 / 8192 buffers
 	}
@@ -158,7 +180,7 @@ func genConfig(rnd *rand.Rand) config {
 	switch k := rnd.Intn(10); {
 	case k < 4:
 		c.SizeMode = 0
-	case k < 8:
+	case k < 7:
 		c.SizeMode = 3
 	case k < 9:
 		c.SizeMode = 1
@@ -166,6 +188,9 @@ func genConfig(rnd *rand.Rand) config {
 		c.SizeMode = 2
 	}
 	c.Delta = 1 + rnd.Intn(50)
+	if rnd.Intn(4) == 0 && c.DataLen > 2 {
+		c.Delta = 1 + rnd.Intn(c.DataLen-1) // declared far below what is produced: several pieces fit before the cut
+	}
 	c.LimN = c.DataLen
 	if c.Kind == kLimited {
 		switch rnd.Intn(4) {
@@ -187,7 +212,14 @@ func genConfig(rnd *rand.Rand) config {
 	if rnd.Intn(10) == 0 {
 		c.ZeroAt = rnd.Intn(c.DataLen + 1)
 	}
-	instrumented := c.Kind != kBytesReader && c.Kind != kBytesBuffer && c.Kind != kStreamWriter
+	instrumented := c.Kind != kBytesReader && c.Kind != kBytesBuffer && c.Kind != kStreamWriter && c.Kind != kBufioReader && c.Kind != kStringsReader
+	if c.Kind == kBufioReader {
+		c.BufioSz = []int{16, 64, 512, 4096}[rnd.Intn(4)]
+		c.BufioPk = 1 + rnd.Intn(c.BufioSz)
+		c.BufioWT = rnd.Intn(2) == 0
+		c.ZeroAt, c.EOFData = -1, false
+	}
+	c.CloseErr = rnd.Intn(4) == 0
 	if instrumented {
 		switch rnd.Intn(10) {
 		case 0, 1:
@@ -199,6 +231,9 @@ func genConfig(rnd *rand.Rand) config {
 	switch k := rnd.Intn(20); {
 	case k < 3:
 		c.Write = wNone
+	case k >= 18 && c.IsReq:
+		c.Write = wClient
+		c.PanicAt = -1 // a panic escaping from HostClient.Do leaves the client's bookkeeping undefined (out of scope)
 	case k < 12 || c.IsReq:
 		c.Write = wWrite
 	case k < 13:
@@ -213,6 +248,8 @@ func genConfig(rnd *rand.Rand) config {
 		c.Write = wServer
 		if rnd.Intn(3) == 0 {
 			c.Enc = []string{"gzip", "deflate", "br", "zstd"}[rnd.Intn(4)]
+		} else if rnd.Intn(4) == 0 {
+			c.SrvError = true
 		}
 	}
 	if c.compressed() {
@@ -227,6 +264,9 @@ func genConfig(rnd *rand.Rand) config {
 	}
 	if c.Write == wServer {
 		c.Release = relNone // the server owns the response and releases it itself
+	}
+	if c.Write == wClient && c.Release == relNone {
+		c.Release = relReset
 	}
 	if c.Write == wCompress {
 		if c.Release == relPool {
@@ -268,7 +308,23 @@ type result struct {
 	swErr      error
 	wrote      bool
 	stage      string
+	declared   int
+
+	// second cycle on the same object: SetBodyString(secondBody) + Write into a fresh healthy peer
+	did2  bool
+	wire2 []byte
+	err2  error
+	s5    snapshot // after the second cycle
+
+	// client mode
+	connLogs  [][]byte // bytes the client wrote, per dialed connection
+	srvBodies []string // "<path> <body>" as seen by the server handler
+	err1      error
+
+	clientSettled bool
 }
+
+const secondBody = "second body"
 
 type discardLogger struct{}
 
@@ -278,7 +334,7 @@ func (discardLogger) Printf(string, ...any) {}
 func (c *config) build(res *result) (io.Reader, *core, int) {
 	data := c.data
 	res.expected = data
-	co := &core{data: data, chunks: c.Chunks, panicAt: c.PanicAt, errAt: c.ErrAt, eofData: c.EOFData, zeroAt: c.ZeroAt}
+	co := &core{data: data, chunks: c.Chunks, panicAt: c.PanicAt, errAt: c.ErrAt, eofData: c.EOFData, zeroAt: c.ZeroAt, closeErr: c.CloseErr}
 	var s io.Reader
 	switch c.Kind {
 	case kPlain:
@@ -302,25 +358,37 @@ func (c *config) build(res *result) (io.Reader, *core, int) {
 		s = bwtS{co, false}
 	case kCloserWithError:
 		s = cweS{co}
-	}
-	size := -1
-	switch c.SizeMode {
-	case 0:
-		size = len(res.expected)
-	case 1:
-		size = len(res.expected) - c.Delta
-		if size < 0 {
-			size = 0
+	case kBufioReader:
+		var inner io.Reader = plainS{co}
+		if c.BufioWT {
+			inner = wtS{co} // bufio.Reader.WriteTo forwards to the inner WriteTo after its buffered bytes
 		}
-	case 2:
-		size = len(res.expected) + c.Delta
+		br := bufio.NewReaderSize(inner, c.BufioSz)
+		br.Peek(min(c.BufioPk, len(data)))
+		s, co = br, nil
+	case kStringsReader:
+		s, co = strings.NewReader(string(data)), nil
 	}
+	res.declared = size0(c, len(res.expected))
+	size := res.declared
 	eff := size
 	if size < 0 && c.Kind == kLimited {
 		eff = c.LimN // fasthttp takes the declared length from LimitedReader.N
 	}
 	res.consistent = eff < 0 || eff == len(res.expected)
 	return s, co, size
+}
+
+func size0(c *config, produced int) int {
+	switch c.SizeMode {
+	case 0:
+		return produced
+	case 1:
+		return max(produced-c.Delta, 0)
+	case 2:
+		return produced + c.Delta
+	}
+	return -1
 }
 
 func (c *config) streamWriter(res *result) fasthttp.StreamWriter {
@@ -360,6 +428,18 @@ func snapOf(co *core) snapshot {
 	return co.snap()
 }
 
+// flushAfter flushes when the write succeeded or failed only with the stream's injected Close error
+// (fasthttp reports a Close error after a complete write).
+func flushAfter(bw *bufio.Writer, err *error) {
+	if *err == nil {
+		*err = bw.Flush()
+	} else if errors.Is(*err, errCloseInjected) {
+		if ferr := bw.Flush(); ferr != nil {
+			*err = ferr
+		}
+	}
+}
+
 // execute runs one configuration against the real code; faultAt < 0 means a healthy peer.
 func execute(c *config, faultAt int) (res *result) {
 	res = &result{}
@@ -378,6 +458,11 @@ func execute(c *config, faultAt int) (res *result) {
 		f()
 	}
 
+	if c.Write == wClient {
+		executeClient(c, res, guard)
+		return res
+	}
+
 	if c.Write == wServer {
 		var stream io.Reader
 		var size int
@@ -388,7 +473,25 @@ func execute(c *config, faultAt int) (res *result) {
 			stream, co, size = c.build(res)
 		}
 		res.hasCore = co != nil
+		if c.SrvError {
+			res.expected, res.consistent = []byte(secondBody), true
+		}
+		calls := 0
 		handler := func(ctx *fasthttp.RequestCtx) {
+			calls++
+			if calls > 1 { // second request on the same keep-alive connection (same pooled RequestCtx)
+				ctx.SetBodyString(secondBody)
+				return
+			}
+			if c.SrvError {
+				if sw != nil {
+					ctx.SetBodyStreamWriter(sw)
+				} else {
+					ctx.SetBodyStream(stream, size)
+				}
+				ctx.Error(secondBody, fasthttp.StatusInternalServerError)
+				return
+			}
 			if c.Skip != 0 && !c.SkipLate {
 				setSkip(&ctx.Response, c.Skip)
 			}
@@ -407,12 +510,13 @@ func execute(c *config, faultAt int) (res *result) {
 			handler = fasthttp.CompressHandlerBrotliLevel(handler, fasthttp.CompressBrotliDefaultCompression, fasthttp.CompressDefaultCompression)
 			in = "GET /c34 HTTP/1.1\r\nHost: h.example\r\nAccept-Encoding: " + c.Enc + "\r\n\r\n"
 		}
+		in += "GET /c34/2 HTTP/1.1\r\nHost: h.example\r\n\r\n" // pipelined second request
 		srv := &fasthttp.Server{Logger: discardLogger{}, NoDefaultServerHeader: true, Handler: handler}
 		conn := &scriptConn{in: []byte(in), out: snk}
 		guard("ServeConn", &res.escaped, func() { res.writeErr = srv.ServeConn(conn) })
 		res.wrote = true
 		res.s1, res.co = snapOf(co), co
-		res.s2, res.s3 = res.s1, res.s1
+		res.s2, res.s3, res.s5 = res.s1, res.s1, res.s1
 		res.wire, res.sinkFail = snk.buf, snk.failed
 		return res
 	}
@@ -453,9 +557,7 @@ func execute(c *config, faultAt int) (res *result) {
 			res.wrote = true
 			guard("Response.Write", &res.escaped, func() {
 				res.writeErr = resp.Write(bw)
-				if res.writeErr == nil {
-					res.writeErr = bw.Flush()
-				}
+				flushAfter(bw, &res.writeErr)
 			})
 		}
 		res.s1 = snapOf(co)
@@ -478,6 +580,8 @@ func execute(c *config, faultAt int) (res *result) {
 			guard("second Reset", &res.relPanic, func() { resp.Reset() })
 		}
 		res.s3 = snapOf(co)
+		cycle2Response(res, resp, guard)
+		res.s5 = snapOf(co)
 		res.wire, res.sinkFail = snk.buf, snk.failed
 		return res
 	}
@@ -504,9 +608,7 @@ func execute(c *config, faultAt int) (res *result) {
 			res.wrote = true
 			guard("Request.Write", &res.escaped, func() {
 				res.writeErr = req.Write(bw)
-				if res.writeErr == nil {
-					res.writeErr = bw.Flush()
-				}
+				flushAfter(bw, &res.writeErr)
 			})
 		}
 		res.s1 = snapOf(co)
@@ -531,6 +633,25 @@ func execute(c *config, faultAt int) (res *result) {
 			guard("second Reset", &res.relPanic, func() { req.Reset() })
 		}
 		res.s3 = snapOf(co)
+		if c.Release == relPool {
+			req = fasthttp.AcquireRequest() // most likely the very object that was just released
+		}
+		guard("second cycle", &res.relPanic, func() {
+			req.Header.SetMethod("POST")
+			req.SetRequestURI("http://h.example/c34/2")
+			req.SetBodyString(secondBody)
+			snk2 := &sink{limit: -1}
+			bw2 := bufio.NewWriterSize(snk2, 4096)
+			res.err2 = req.Write(bw2)
+			if res.err2 == nil {
+				res.err2 = bw2.Flush()
+			}
+			res.wire2, res.did2 = snk2.buf, true
+		})
+		res.s5 = snapOf(co)
+		if c.Release == relPool {
+			fasthttp.ReleaseRequest(req)
+		}
 	} else {
 		var resp *fasthttp.Response
 		if c.Release == relPool {
@@ -565,9 +686,7 @@ func execute(c *config, faultAt int) (res *result) {
 				case wDeflate:
 					res.writeErr = resp.WriteDeflate(bw)
 				}
-				if res.writeErr == nil {
-					res.writeErr = bw.Flush()
-				}
+				flushAfter(bw, &res.writeErr)
 			})
 		}
 		res.s1 = snapOf(co)
@@ -592,9 +711,142 @@ func execute(c *config, faultAt int) (res *result) {
 			guard("second Reset", &res.relPanic, func() { resp.Reset() })
 		}
 		res.s3 = snapOf(co)
+		if c.Release == relPool {
+			resp = fasthttp.AcquireResponse() // most likely the very object that was just released
+		}
+		cycle2Response(res, resp, guard)
+		res.s5 = snapOf(co)
+		if c.Release == relPool {
+			fasthttp.ReleaseResponse(resp)
+		}
 	}
 	res.wire, res.sinkFail = snk.buf, snk.failed
 	return res
+}
+
+func cycle2Response(res *result, resp *fasthttp.Response, guard func(string, *any, func())) {
+	guard("second cycle", &res.relPanic, func() {
+		resp.SetBodyString(secondBody)
+		snk2 := &sink{limit: -1}
+		bw2 := bufio.NewWriterSize(snk2, 4096)
+		res.err2 = resp.Write(bw2)
+		if res.err2 == nil {
+			res.err2 = bw2.Flush()
+		}
+		res.wire2, res.did2 = snk2.buf, true
+	})
+}
+
+// executeClient sends the stream as the body of request 1 through a real HostClient to a real Server over an
+// InmemoryListener, then a second request with a plain body through the same client (keep-alive connection).
+func executeClient(c *config, res *result, guard func(string, *any, func())) {
+	var stream io.Reader
+	var co *core
+	var size int
+	var sw fasthttp.StreamWriter
+	if c.Kind == kStreamWriter {
+		sw = c.streamWriter(res)
+	} else {
+		stream, co, size = c.build(res)
+	}
+	res.hasCore, res.co = co != nil, co
+	ln := fasthttputil.NewInmemoryListener()
+	var mu sync.Mutex
+	srv := &fasthttp.Server{Logger: discardLogger{}, NoDefaultServerHeader: true, Handler: func(ctx *fasthttp.RequestCtx) {
+		mu.Lock()
+		res.srvBodies = append(res.srvBodies, string(ctx.Path())+" "+string(ctx.PostBody()))
+		mu.Unlock()
+		ctx.SetBodyString("ok")
+	}}
+	served := make(chan struct{})
+	go func() { defer close(served); srv.Serve(ln) }()
+	var tees []*teeConn
+	hc := &fasthttp.HostClient{Addr: "h.example", MaxConns: 4, ReadTimeout: 20 * time.Second, WriteTimeout: 20 * time.Second,
+		Dial: func(string) (net.Conn, error) {
+			conn, err := ln.Dial()
+			if err != nil {
+				return nil, err
+			}
+			t := &teeConn{Conn: conn}
+			mu.Lock()
+			tees = append(tees, t)
+			mu.Unlock()
+			return t, nil
+		}}
+	var req *fasthttp.Request
+	if c.Release == relPool {
+		req = fasthttp.AcquireRequest()
+	} else {
+		req = &fasthttp.Request{}
+	}
+	var resp fasthttp.Response
+	req.Header.SetMethod(c.Method)
+	req.SetRequestURI("http://h.example/c34/1")
+	if sw != nil {
+		req.SetBodyStreamWriter(sw)
+	} else {
+		req.SetBodyStream(stream, size)
+	}
+	res.wrote = true
+	guard("HostClient.Do", &res.escaped, func() { res.writeErr = hc.Do(req, &resp) })
+	res.err1 = res.writeErr
+	res.s1 = snapOf(co)
+	other := plainS{&core{data: []byte("other"), chunks: []int{5}, panicAt: -1, errAt: -1, zeroAt: -1}}
+	guard("release", &res.relPanic, func() {
+		switch c.Release {
+		case relReset:
+			req.Reset()
+		case relResetBody:
+			req.ResetBody()
+		case relPool:
+			fasthttp.ReleaseRequest(req)
+		case relCloseBodyStream:
+			req.CloseBodyStream()
+		case relSetBody:
+			req.SetBody([]byte("replaced"))
+		case relSetBodyStream:
+			req.SetBodyStream(other, -1)
+		}
+	})
+	res.s2 = snapOf(co)
+	if c.Again {
+		guard("second Reset", &res.relPanic, func() { req.Reset() })
+	}
+	res.s3 = snapOf(co)
+	if c.Release == relPool {
+		req = fasthttp.AcquireRequest()
+	}
+	guard("second cycle", &res.relPanic, func() {
+		req.Header.SetMethod("POST")
+		req.SetRequestURI("http://h.example/c34/2")
+		req.SetBodyString(secondBody)
+		resp.Reset()
+		res.err2 = hc.Do(req, &resp)
+		res.did2 = true
+	})
+	res.s5 = snapOf(co)
+	if c.Release == relPool {
+		fasthttp.ReleaseRequest(req)
+	}
+	hc.CloseIdleConnections()
+	mu.Lock()
+	for _, t := range tees {
+		t.Close()
+	}
+	mu.Unlock()
+	ln.Close()
+	<-served
+	// wait until the server's connection goroutines are gone: srvBodies is complete afterwards
+	deadline := time.Now().Add(30 * time.Second)
+	for srv.GetOpenConnectionsCount() > 0 && time.Now().Before(deadline) {
+		runtime.Gosched()
+	}
+	res.clientSettled = srv.GetOpenConnectionsCount() == 0
+	mu.Lock()
+	for _, t := range tees {
+		res.connLogs = append(res.connLogs, t.written())
+	}
+	mu.Unlock()
 }
 
 func (c *config) encName() string {
@@ -739,6 +991,17 @@ func (j *judge) judge(c *config, faultAt int, res *result, fclass string) {
 		r.Violation(j.idx, side+"-"+key, fmt.Sprintf("%s %s stream, %s, release=%s, fault=%s: %s", side, kindNames[c.Kind], writeNames[c.Write], relNames[c.Release], fclass, what), payload())
 	}
 
+	// fasthttp reports the stream's Close error as the result of an otherwise complete write: not a write failure
+	werr := res.writeErr
+	if errors.Is(werr, errCloseInjected) {
+		werr = nil
+		r.Event("close_error_reported_by_write", 1)
+	}
+	closeKind := "ok"
+	if c.CloseErr {
+		closeKind = "close-error"
+	}
+
 	// ---- panics
 	streamPanicked := res.s3.panicked
 	var bsp *fasthttp.ErrBodyStreamWritePanic
@@ -767,10 +1030,14 @@ func (j *judge) judge(c *config, faultAt int, res *result, fclass string) {
 		switch {
 		case streamPanicked:
 			how = "panic"
-		case res.writeErr != nil && res.sinkFail:
+		case werr != nil && res.sinkFail:
 			how = "write-error"
-		case res.writeErr != nil:
+		case werr != nil:
 			how = "stream-error"
+		}
+		if c.CloseErr {
+			how += "-close-error"
+			r.Event("close_counts_judged_with_failing_close", 1)
 		}
 		if c.Write == wServer {
 			if res.s1.closes == 0 {
@@ -800,16 +1067,26 @@ func (j *judge) judge(c *config, faultAt int, res *result, fclass string) {
 				}
 			}
 		}
+		if res.did2 {
+			// second cycle on the same object: the old stream must be gone
+			r.Event("second_cycles_judged", 1)
+			if res.s5.closes > res.s3.closes {
+				viol("closed-again-in-second-cycle-"+closeKind, fmt.Sprintf("the stream of the first cycle was closed again (%d -> %d Close calls) when the object was reused with SetBodyString", res.s3.closes, res.s5.closes))
+			}
+			if res.s5.reads > res.s3.reads && !c.compressed() {
+				viol("second-cycle-read-old-stream-"+closeKind, fmt.Sprintf("the stream of the first cycle was read again (%d -> %d Read calls) while the second cycle was written", res.s3.reads, res.s5.reads))
+			}
+		}
 		if c.compressed() {
 			// the compressor goroutine has finished by now: the final count is what the user's stream saw in total
 			r.Event("compressed_close_counts_judged_after_goroutine_exit", 1)
-			if res.s4.closes > res.s3.closes {
+			if res.s4.closes > res.s5.closes {
 				r.Event("closes_seen_only_after_goroutine_exit", 1)
 			}
 			if res.s4.closes == 0 {
 				viol("compressed-stream-never-closed-"+how, fmt.Sprintf("original stream behind the %s compressor was never closed (compressor goroutine has exited)", c.encName()))
-			} else if res.s4.closes > 1 && res.s3.closes <= 1 {
-				viol("compressed-stream-closed-again-by-compressor-goroutine-"+how, fmt.Sprintf("original stream behind the %s compressor: Close called %d times once the compressor goroutine had exited (%d when the caller was done: discard and goroutine both closed it)", c.encName(), res.s4.closes, res.s3.closes))
+			} else if res.s4.closes > 1 && res.s4.closes > res.s5.closes {
+				viol("compressed-stream-closed-again-by-compressor-goroutine-"+how, fmt.Sprintf("original stream behind the %s compressor: Close called %d times once the compressor goroutine had exited (%d when the caller was done: discard and goroutine both closed it)", c.encName(), res.s4.closes, res.s5.closes))
 			}
 		}
 		if res.s4.readsAfterClose > 0 {
@@ -821,15 +1098,50 @@ func (j *judge) judge(c *config, faultAt int, res *result, fclass string) {
 		}
 	}
 
+	// ---- second cycle: the peer must get the second cycle's body
+	if res.did2 && c.Write != wClient && c.Skip == 0 && res.relPanic == nil {
+		m2 := decodeMessage(res.wire2)
+		if res.err2 != nil || m2.bad != "" || !m2.complete || string(m2.body) != secondBody || len(m2.rest) != 0 {
+			viol("second-cycle-wrong-body-"+closeKind, fmt.Sprintf("after %s the object was reused with SetBodyString(%q) but the peer got err=%v complete=%v chunked=%v body=%s", relNames[c.Release], secondBody, res.err2, m2.complete, m2.chunked, mon.Short(m2.body, 40)))
+		} else {
+			r.Event("second_cycle_bodies_compared", 1)
+		}
+	}
+
 	// ---- exact bytes
 	if !res.wrote || res.escaped != nil || res.relPanic != nil {
 		return
+	}
+	if c.Write == wClient {
+		j.judgeClient(c, res, viol, werr)
+		return
+	}
+	// fixed-size framing: whatever the stream does, the body on the wire never exceeds the declared
+	// Content-Length, is a prefix of the stream's output, and the next message starts right after it
+	if c.Skip == 0 && !c.compressed() {
+		if m := decodeMessage(res.wire); m.headDone && m.bad == "" && m.cl >= 0 && len(m.header["content-encoding"]) == 0 {
+			r.Event("fixed_size_wires_judged", 1)
+			if len(res.expected) > m.cl {
+				r.Event("fixed_size_wires_judged_stream_longer_than_declared", 1)
+			}
+			restOK := len(m.rest) == 0
+			if c.Write == wServer && !restOK {
+				const next = "HTTP/1.1 "
+				restOK = bytes.HasPrefix(m.rest, []byte(next)) || strings.HasPrefix(next, string(m.rest))
+			}
+			if !restOK {
+				viol("wire-exceeds-content-length", fmt.Sprintf("Content-Length %d, but %d more bytes follow the body that are not the next message: %s (stream produces %d bytes, WriteTo used: %v)", m.cl, len(m.rest), mon.Short(m.rest, 40), len(res.expected), res.s4.usedWriteTo))
+			}
+			if !bytes.HasPrefix(res.expected, m.body) {
+				viol("fixed-body-not-a-prefix-of-stream-output", fmt.Sprintf("Content-Length %d: the %d body bytes on the wire differ from the stream's output at %d", m.cl, len(m.body), firstDiff(m.body, res.expected)))
+			}
+		}
 	}
 	if !res.consistent {
 		r.Event("skipped_bytes_declared_size_differs_C03", 1)
 		return
 	}
-	if c.Skip != 0 || streamPanicked || (res.writeErr != nil && !res.sinkFail) || c.ErrAt >= 0 {
+	if c.Skip != 0 || streamPanicked || (werr != nil && !res.sinkFail) || c.ErrAt >= 0 {
 		r.Event("skipped_bytes_no_body_or_stream_failed", 1)
 		return
 	}
@@ -846,7 +1158,7 @@ func (j *judge) judge(c *config, faultAt int, res *result, fclass string) {
 		// the peer saw a prefix only
 		if !res.sinkFail {
 			r.Event("fault_not_reached", 1)
-		} else if res.writeErr == nil && c.Write != wServer {
+		} else if werr == nil && c.Write != wServer {
 			viol("write-error-swallowed", "the peer failed but Write and Flush reported success")
 		}
 		if !m.headDone || enc != "" {
@@ -859,15 +1171,32 @@ func (j *judge) judge(c *config, faultAt int, res *result, fclass string) {
 		r.Event("fault_prefix_checked", 1)
 		return
 	}
-	if res.writeErr != nil {
-		viol("clean-write-failed", fmt.Sprintf("healthy peer, consistent size, but the write failed: %v", res.writeErr))
+	if werr != nil {
+		viol("clean-write-failed", fmt.Sprintf("healthy peer, consistent size, but the write failed: %v", werr))
+		return
+	}
+	if c.Write == wServer && c.CloseErr {
+		// The server treats the stream's Close error as a failed write: it closes the connection without flushing
+		// what is still buffered. Whether the peer must get the whole response then is not decided here.
+		r.Event("skipped_bytes_server_aborts_after_close_error", 1)
+		if !m.complete {
+			r.Event("observed_server_response_truncated_after_close_error", 1)
+		}
 		return
 	}
 	if !m.complete {
 		viol("wire-incomplete", fmt.Sprintf("message not complete on the wire (chunked=%v cl=%d body so far %d bytes)", m.chunked, m.cl, len(m.body)))
 		return
 	}
-	if len(m.rest) != 0 {
+	if c.Write == wServer {
+		// the second, pipelined request is answered by the same pooled RequestCtx: its body must be the second cycle's
+		m2 := decodeMessage(m.rest)
+		if m2.bad != "" || !m2.complete || string(m2.body) != secondBody || len(m2.rest) != 0 {
+			viol("server-second-response-wrong-"+closeKind, fmt.Sprintf("keep-alive connection: the response to the second request is complete=%v bad=%q body=%s (%d bytes follow the first response)", m2.complete, m2.bad, mon.Short(m2.body, 40), len(m.rest)))
+		} else {
+			r.Event("second_cycle_bodies_compared", 1)
+		}
+	} else if len(m.rest) != 0 {
 		viol("wire-trailing-bytes", fmt.Sprintf("%d bytes after the message: %s", len(m.rest), mon.Short(m.rest, 60)))
 	}
 	got := m.body
@@ -890,7 +1219,7 @@ func (j *judge) judge(c *config, faultAt int, res *result, fclass string) {
 	if d := firstDiff(got, res.expected); d >= 0 {
 		viol("peer-bytes-differ-"+framing, fmt.Sprintf("peer decoded %d bytes, the stream produced %d; first difference at %d", len(got), len(res.expected), d))
 	}
-	if c.Kind == kStreamWriter && res.swWritten != len(res.expected) {
+	if c.Kind == kStreamWriter && !c.SrvError && res.swWritten != len(res.expected) {
 		viol("stream-writer-cut-short", fmt.Sprintf("StreamWriter could only write %d of %d bytes (err=%v)", res.swWritten, len(res.expected), res.swErr))
 	}
 	r.Event("bodies_compared_own_decoder", 1)
@@ -922,6 +1251,75 @@ func (j *judge) judge(c *config, faultAt int, res *result, fclass string) {
 	}
 }
 
+// judgeClient: what the real client put on its connections and what the real server understood.
+func (j *judge) judgeClient(c *config, res *result, viol func(key, what string), werr error) {
+	r := j.r
+	if !res.clientSettled {
+		r.Inconclusive(fmt.Sprintf("case %d: server connections still open 30 s after the client closed them", j.idx))
+		return
+	}
+	isStart := func(b []byte) bool {
+		for _, mth := range []string{"POST", "PUT", "PATCH"} {
+			p := mth + " /c34/"
+			if bytes.HasPrefix(b, []byte(p)) || strings.HasPrefix(p, string(b)) {
+				return true
+			}
+		}
+		return false
+	}
+	for ci, log := range res.connLogs {
+		rest := log
+		for n := 0; len(rest) > 0; n++ {
+			if !isStart(rest) {
+				viol("client-wire-exceeds-content-length", fmt.Sprintf("connection %d: after %d complete request(s) the client wrote %d bytes that are not the start of a request: %s (stream produces %d bytes, declared %d)", ci, n, len(rest), mon.Short(rest, 40), len(res.expected), res.declared))
+				break
+			}
+			m := decodeMessage(rest)
+			if m.bad != "" {
+				viol("client-wire-malformed", m.bad)
+				break
+			}
+			if !m.headDone || !m.complete {
+				if m.headDone && strings.Contains(m.startLine, "/c34/1") && !bytes.HasPrefix(res.expected, m.body) {
+					viol("fixed-body-not-a-prefix-of-stream-output", fmt.Sprintf("client connection %d: truncated body differs from the stream's output at %d", ci, firstDiff(m.body, res.expected)))
+				}
+				break
+			}
+			if strings.Contains(m.startLine, "/c34/1") && !bytes.HasPrefix(res.expected, m.body) {
+				viol("fixed-body-not-a-prefix-of-stream-output", fmt.Sprintf("client connection %d: body differs from the stream's output at %d", ci, firstDiff(m.body, res.expected)))
+			}
+			rest = m.rest
+		}
+		r.Event("client_connections_judged", 1)
+	}
+	saw1, saw2 := false, false
+	for _, b := range res.srvBodies {
+		switch {
+		case b == "/c34/2 "+secondBody:
+			saw2 = true
+		case strings.HasPrefix(b, "/c34/1 ") && bytes.HasPrefix(res.expected, []byte(b[7:])):
+			saw1 = len(b)-7 == len(res.expected)
+		default:
+			viol("server-understood-foreign-request", fmt.Sprintf("the server handled a request the client never sent: %s", mon.Short([]byte(b), 60)))
+		}
+	}
+	fine := res.consistent && c.ErrAt < 0 && !c.CloseErr && !res.s4.panicked
+	if fine {
+		if werr != nil || !saw1 {
+			viol("client-clean-request-failed", fmt.Sprintf("consistent stream, healthy server: Do returned %v, server saw the full body: %v", werr, saw1))
+		} else {
+			r.Event("client_bodies_compared", 1)
+		}
+	}
+	if res.did2 && res.relPanic == nil {
+		if res.err2 != nil || !saw2 {
+			viol("client-second-request-failed", fmt.Sprintf("the second request (SetBodyString %q on the reused Request) returned %v, server saw it: %v", secondBody, res.err2, saw2))
+		} else {
+			r.Event("second_cycle_bodies_compared", 1)
+		}
+	}
+}
+
 func classOf(c *config, res *result, fclass string) string {
 	wire := "-"
 	if i := bytes.Index(res.wire, []byte("\r\n\r\n")); i >= 0 {
@@ -942,16 +1340,18 @@ func classOf(c *config, res *result, fclass string) string {
 	case c.DataLen > 0:
 		lb = "1+"
 	}
-	return fmt.Sprintf("req=%v/%s/size=%d/%s/enc=%s/chw=%v/rel=%s/skip=%d/fault=%s/panic=%v/err=%v/wire=%s/len=%s/wt=%v",
-		c.IsReq, kindNames[c.Kind], c.SizeMode, writeNames[c.Write], c.Enc, c.CHWrite, relNames[c.Release], c.Skip, fclass, c.PanicAt >= 0, c.ErrAt >= 0, wire, lb, res.s3.usedWriteTo)
+	return fmt.Sprintf("req=%v/%s/size=%d/%s/enc=%s/chw=%v/rel=%s/skip=%d/fault=%s/panic=%v/err=%v/wire=%s/len=%s/wt=%v/cerr=%v/srverr=%v",
+		c.IsReq, kindNames[c.Kind], c.SizeMode, writeNames[c.Write], c.Enc, c.CHWrite, relNames[c.Release], c.Skip, fclass, c.PanicAt >= 0, c.ErrAt >= 0, wire, lb, res.s3.usedWriteTo, c.CloseErr, c.SrvError)
 }
 
 func TestC34(t *testing.T) {
 	r := mon.Start(t, "C34")
 	defer r.Finish()
-	r.Rule("configuration = {request, response} x stream kind {plain Reader, ReadCloser, LimitedReader, bytes.Reader, bytes.Buffer, WriterTo, BodyWriterTo on/off, ReadCloser with CloseWithError, SetBodyStreamWriter} x content length 0-24000 x read/WriteTo chunk plan x declared size {equal, shorter, longer, -1} x {Read panics at byte k, Read fails at byte k, (n,EOF), (0,nil)} x bufio size 16-65536 x {no write, Write, WriteGzip, WriteDeflate, CompressHandlerBrotliLevel(gzip|deflate|br|zstd) on a RequestCtx with or without a following Write, Server.ServeConn with or without CompressHandler} x release {none, Reset, ResetBody, ReleaseRequest/ReleaseResponse, CloseBodyStream, SetBody, SetBodyStream(other)} x second Reset x {204, 304, SkipBody} x ImmediateHeaderFlush; " +
+	r.Rule("configuration = {request, response} x stream kind {plain Reader, ReadCloser, LimitedReader, bytes.Reader, bytes.Buffer, WriterTo, BodyWriterTo on/off, ReadCloser with CloseWithError, pre-filled bufio.Reader (inner Reader or WriterTo), strings.Reader, SetBodyStreamWriter} x Close returns nil / an error x content length 0-24000 x read/WriteTo chunk plan x declared size {equal, shorter, longer, -1} x {Read panics at byte k, Read fails at byte k, (n,EOF), (0,nil)} x bufio size 16-65536 x {no write, Write, WriteGzip, WriteDeflate, CompressHandlerBrotliLevel(gzip|deflate|br|zstd) on a RequestCtx with or without a following Write, Server.ServeConn (two pipelined requests, optionally ctx.Error after SetBodyStream, with or without CompressHandler), HostClient.Do to a real Server over an InmemoryListener (two requests on one client)} x release {none, Reset, ResetBody, ReleaseRequest/ReleaseResponse, CloseBodyStream, SetBody, SetBodyStream(other)} x second Reset x second cycle (SetBodyString on the same object, written to a healthy peer) x {204, 304, SkipBody} x ImmediateHeaderFlush; " +
 		"every configuration is executed with a healthy peer and then with the peer failing after n bytes (n = 0, last byte, head/body boundary, PRNG positions); one evaluation = one execution; distinct = feature vector incl. fault class and resulting framing; non-trivial = the stream has bytes and is either an instrumented Closer or had its bytes compared")
-	r.Assume("exact-bytes is judged only when the declared size agrees with what the stream produces (or is -1) and neither the stream nor the peer failed; declared != produced framing belongs to C03 (counted as skipped_bytes_declared_size_differs_C03)")
+	r.Assume("exact-bytes (peer body == stream output) is judged only when the declared size agrees with what the stream produces (or is -1) and neither the stream nor the peer failed; for every declared size the weaker rule is judged: bytes after the head <= Content-Length, a prefix of the stream output, next message right after")
+	r.Assume("a Close error of the stream is reported by fasthttp as the result of an otherwise complete write; the harness flushes and does not treat it as a write failure. Server.ServeConn treats it as a failed write and closes the connection without flushing what is still buffered: whether the peer must get the whole response then is not judged (skipped_bytes_server_aborts_after_close_error / observed_server_response_truncated_after_close_error)")
+	r.Assume("HostClient cases use non-idempotent methods (no retries), no panicking streams (a panic escaping Do leaves the client's bookkeeping undefined) and no injected peer faults")
 	r.Assume("a panic from a REQUEST stream's Read propagates to the caller by design: the harness recovers, performs the release operation, then counts Close calls; after a recovered RESPONSE stream panic the count is likewise taken after the release operation")
 	r.Assume("SetBody and SetBodyStream(other) are treated as resets of the body")
 	r.Assume("with WriteGzip/WriteDeflate fasthttp reads the original stream in a compressor goroutine and closes it from the writer side when the write is abandoned (upstream tests require this), so a Read arriving after Close is counted, not judged, on that path; the Close COUNT is judged there too, after the compressor goroutine (identified by an inherited pprof label and the NewStreamReader frame) has exited (30 s cap, inconclusive if it fires); panicking streams are not combined with compression or SetBodyStreamWriter (the panic would be raised in a goroutine fasthttp does not guard); br and zstd bodies are checked for framing and Close counts only (no stdlib decoder)")
@@ -1005,7 +1405,7 @@ func TestC34(t *testing.T) {
 		if c.Write == wCompress && !c.CHWrite && r.Thorough() {
 			run(-1, 0, 0) // a discard without any write has no fault positions: repeat it for schedule diversity
 		}
-		if c.Write == wNone || len(clean.wire) == 0 {
+		if c.Write == wNone || c.Write == wClient || len(clean.wire) == 0 {
 			return
 		}
 		wl := len(clean.wire)
@@ -1035,5 +1435,9 @@ func TestC34(t *testing.T) {
 		r.Require("stream_panics_injected", nCfg/20)
 		r.Require("fault_prefix_checked", nCfg/20)
 		r.Require("compressed_close_counts_judged_after_goroutine_exit", nCfg/20)
+		r.Require("close_counts_judged_with_failing_close", nCfg/10)
+		r.Require("second_cycle_bodies_compared", nCfg/2)
+		r.Require("fixed_size_wires_judged_stream_longer_than_declared", nCfg/20)
+		r.Require("client_connections_judged", nCfg/100)
 	}
 }
